@@ -441,7 +441,16 @@ class NPProxy:
 
     def allclose(self, a, b, rtol=1e-5, atol=1e-8, **kw):
         if has_sym(a) or has_sym(b):
-            raise Concretize('np.allclose on symbolic data')
+            # the documented definition |a - b| <= atol + rtol*|b| elementwise; decided by the path (forks on symbolic data,
+            # plain evaluation on constants)
+            aa, bb = np.broadcast_arrays(np.asarray(a, dtype=object), np.asarray(b, dtype=object))
+            for x, y in zip(aa.ravel(), bb.ravel()):
+                d = x - y
+                ay = y if bool(y >= 0) else -y
+                lim = atol + rtol * ay
+                if not (bool(d <= lim) and bool(-d <= lim)):
+                    return False
+            return True
         return np.allclose(a, b, rtol, atol, **kw)
 
     def array_equal(self, a, b, **kw):
